@@ -2,12 +2,15 @@
 
 proof:          coq/props/C04.v over the regenerated element tables (Gen.Elements)
 correspondence: (a) compiled rule tables of all 118 elements, (b1) calc_implicit / check_implicit on the exhaustive organic
-                environment space built as real molecules, (b2) per-atom and per-molecule observations on rule-directed,
-                random, malformed and corpus molecules (hydrogens, labels, fix_structure, brutto, charge, radical, mass,
-                check_valence)
-search:         octet-rule oracle on the exhaustive space, RDKit atom by atom (total Hs), formula / charge / mass
-                re-derived from the atoms and from RDKit, reported atoms == atoms without any accepted hydrogen count,
-                additivity over union, invariance under renumbering - all on the real code, independent of the model."""
+                environment space built as real molecules, (b1') the same on the exhaustive aromatic space (ordered neighbour
+                lists), (b2) per-atom and per-molecule observations on rule-directed, random, malformed and corpus molecules
+                (hydrogens, labels, fix_structure, brutto, charge, radical, mass, check_valence), (c) union / substructure /
+                split: whole result molecules (atoms in order, hydrogen counts, bonds) and exceptions
+search:         directed table search (every tabulated rule as a molecule: electron parity from the atomic number, octet rule,
+                RDKit on the bare graph), octet-rule oracle on the exhaustive space, closed form of the aromatic branch, RDKit atom
+                by atom (total Hs), aromatic atoms vs their Kekule form vs RDKit, formula / charge / mass re-derived from the atoms
+                and from RDKit, reported atoms == atoms without any accepted hydrogen count, additivity over union and split,
+                substructure vs rebuild from scratch, invariance under renumbering - all on the real code, independent of the model."""
 import collections
 import concurrent.futures as cf
 import itertools
@@ -702,6 +705,123 @@ def corr_molecules(ck):
 
 
 # ---------------------------------------------------------------------------------------------------------------
+# (c) union / substructure / split
+
+IMPORTS_X = 'Graph PeriodicTable Valence ValenceArom'
+
+
+def pyres_mol(fn):
+    """result of a molecule-valued call as a Coq pyres term; MappingError and friends are ValueError subclasses"""
+    try:
+        return 'Ok ' + coqmol.mol_term(fn())
+    except ValueError:
+        return 'Err ValueError'
+    except KeyError:
+        return 'Err KeyError'
+    except Exception as e:
+        return 'Err ' + EXN.get(type(e).__name__, 'OtherError')
+
+
+def compose_pool(ck, rng):
+    """molecules for the union / substructure / split cases: corpus molecules as read (aromatic) and in Kekule form, and
+    hand-made ones (salts, order-8 bonds joining components, radicals, valence errors, explicit hydrogens)"""
+    from chython import smiles
+    out = []
+    for smi in ('CCO', '[Na+].[Cl-]', 'CC(=O)[O-].[NH4+]', 'c1ccccc1.Cc1ccncc1', 'C[N+](C)(C)C.[O-]S(=O)(=O)C(F)(F)F', 'N~[Cu]~N.O', 'C~[Fe].CC',
+                '[CH3].[OH]', 'CN(=O)=O.C', '[H]O[H].[H][H]', 'OP(O)(O)=O', 'c1ccc2ccccc2c1', 'O=c1cc[nH]cc1', 'C', '[He]', 'C1CC1C.C1CC1',
+                'OB(O)c1ccccc1.OCCO', 'Cl[Pt](Cl)(N)N', '[Li+].[Li+].[O-]C([O-])=O'):
+        try:
+            out.append(smiles(smi))
+        except Exception:
+            pass
+    for smi in corpus.sample(corpus.lipo(), 30 if ck.tier == 'quick' else 400, ck.seed, 'c04compose'):
+        try:
+            m = smiles(smi)
+        except Exception:
+            continue
+        out.append(m)
+        k = m.copy()
+        try:
+            if k.kekule():
+                out.append(k)
+        except Exception:
+            pass
+    return out
+
+
+def selections(m, rng):
+    """atom selections for substructure: a connected ball, a random subset, one whole component, everything in reverse
+    order, a repeated atom, an unknown atom, nothing"""
+    atoms = list(m._atoms)
+    sels = []
+    if atoms:
+        n = rng.choice(atoms)
+        ball = [n] + list(m._bonds[n])
+        sels.append(ball)
+        sels.append([x for x in atoms if rng.random() < 0.5] or [atoms[0]])
+        comp = rng.choice(m.connected_components)
+        sels.append(sorted(comp, reverse=rng.random() < 0.5))
+        sels.append(atoms[::-1])
+        sels.append([n, n])
+        sels.append([n, max(atoms) + 7])
+    sels.append([])
+    return sels
+
+
+def corr_compose(ck):
+    rng = random.Random(f'{ck.seed}:c04:compose')
+    pool = compose_pool(ck, rng)
+    cases, meta = [], []
+    n_sub = 0
+    for i, m in enumerate(pool):
+        g = coqmol.mol_term(m)
+        # union with the next molecule of the pool: overlapping numbers (both start at 1) and disjoint ones
+        o = pool[(i + 1) % len(pool)]
+        far = o.copy()
+        far.remap({n: n + 1000 for n in far})
+        parts = []
+        for other, tag in ((o, 'overlap'), (far, 'disjoint')):
+            for remap in (False, True):
+                exp = pyres_mol(lambda: m.union(other, remap=remap))
+                parts.append(f'union_case g {"o" if other is o else "far"} {b(remap)} ({exp})')
+                ck.case(('union', i, tag, remap))
+                ck.count(f'compose:union {tag} remap={remap} -> {exp.split()[0]}')
+        cases.append(f'(let g := {g} in let o := {coqmol.mol_term(o)} in let far := {coqmol.mol_term(far)} in ' + ' && '.join(parts) + ')')
+        meta.append(('union', str(m), str(o)))
+        parts = []
+        sels = selections(m, rng)
+        for sel in sels:
+            for recalc in (True, False):
+                exp = pyres_mol(lambda: m.substructure(sel, recalculate_hydrogens=recalc))
+                parts.append(f'sub_case g {lst(sel, zraw)} {b(recalc)} ({exp})')
+                ck.case(('sub', i, tuple(sel), recalc))
+                ck.count(f'compose:substructure recalc={recalc} -> {exp.split()[0]}')
+                n_sub += 1
+        comps = [sorted(c) for c in m.connected_components]
+        try:
+            exp = 'Ok ' + lst(m.split(), coqmol.mol_term)
+        except Exception as e:
+            exp = 'Err ' + ('ValueError' if isinstance(e, ValueError) else EXN.get(type(e).__name__, 'OtherError'))
+        parts.append(f'split_case g {lst(comps, lambda c: lst(c, zraw))} ({exp})')
+        cases.append(f'(let g := {g} in ' + ' && '.join(parts) + ')')
+        meta.append(('substructure+split', str(m), sels, comps))
+        ck.case(('split', i))
+        ck.count(f'compose:split into {min(len(comps), 4)}{"+" if len(comps) > 4 else ""} component(s)')
+    ok, failing, log = coqcases.run_cases('c04c', IMPORTS_X, cases, extra=EXTRA, shard=12)
+    good = ok and not failing
+    n_all = 4 * len(pool) + n_sub + len(pool)
+    ck.oblige(f'correspondence: union (remap on/off, overlapping / disjoint numbers), substructure (recalculate_hydrogens on/off; balls, subsets, '
+              f'components, unknown / repeated / no atoms) and split on {len(pool)} real molecules == Coq model: atoms in order, hydrogen counts, bonds, exceptions '
+              f'({n_all} calls)', good, 'correspondence', log or str([meta[i] for i in failing[:8]]))
+    ck.extra['compose_cases'] = n_all
+    ck.sample({'model_call': cases[1][:500], 'meta': repr(meta[1])[:300]})
+    if not good:
+        ck.unchecked('correspondence ValenceArom.union_py / substructure / split_with vs Graph.union / MoleculeContainer.substructure / split', log[-1500:],
+                     [repr(meta[i]) + ' :: ' + cases[i][:1500] for i in failing[:20]])
+    return good
+
+
+# ---------------------------------------------------------------------------------------------------------------
 # directed search for the table theorems: the molecule of every tabulated rule, judged without the tables
 
 NOBLE = (0, 2, 10, 18, 36, 54, 86, 118)
@@ -983,6 +1103,35 @@ def search(ck):
                                   'RDKit Descriptors.MolWt (tolerance 0.02 + 3e-5 m: the two isotope tables differ slightly)', replay_py=rp)
         n_ok += 1
     ck.extra['rdkit_agreements'] = n_ok
+    # the delocalised branch on real rings: the count calc_implicit gives an aromatic atom of the molecule AS READ equals the
+    # count the localised rules give the same atom after kekule(), and RDKit's count
+    for smi, mk in parsed[:1200 if ck.tier == 'quick' else 4200]:
+        try:
+            m0 = smiles(smi)
+        except Exception:
+            continue
+        ar = [n for n in m0 if any(int(bd) == 4 for bd in m0._bonds[n].values())]
+        if not ar or list(m0._atoms) != list(mk._atoms):
+            continue
+        rd = Chem.MolFromSmiles(smi, params)
+        same_order = rd is not None and rd.GetNumAtoms() == len(m0) and all(a.atomic_number == ra.GetAtomicNum() for (_, a), ra in zip(m0.atoms(), rd.GetAtoms()))
+        c0 = m0.copy()
+        ck.case(('aromatic-ring', smi))
+        for i, n in enumerate(m0):
+            if n not in ar:
+                continue
+            c0.calc_implicit(n)
+            h = c0._atoms[n].implicit_hydrogens
+            ck.count('search:aromatic atoms ' + ('with a count' if h is not None else 'left to kekule()'))
+            if h is None:
+                continue
+            hk = mk._atoms[n].implicit_hydrogens
+            hr = rd.GetAtomWithIdx(i).GetTotalNumHs(includeNeighbors=True) - m0._atoms[n].explicit_hydrogens if same_order else hk
+            if h != hk or h != hr:
+                ck.counterexample(f'aromatic-kekule:{smi}:{n}', f'hydrogen count of aromatic atom {n} differs from its count in the Kekule form / from RDKit',
+                                  {'smiles': smi, 'atom': n}, h, {'after kekule()': hk, 'RDKit': hr}, 'localised valence rules on the Kekule form + RDKit',
+                                  replay_py=f"from chython import smiles; m = smiles({smi!r}); m.calc_implicit({n}); print(m.atom({n}).implicit_hydrogens); m.kekule(); print(m.atom({n}).implicit_hydrogens)")
+                break
     # totals re-derived from the atoms (fresh objects, so no cache can help)
     hm = exact_atomic_mass(HEl())
     for smi, m in parsed:
@@ -1074,8 +1223,47 @@ def search(ck):
                                   'sums re-derived from the atoms',
                                   replay_py=f"from chython import smiles; m=smiles({smi!r}); m.kekule(); print(m.brutto,int(m)); \nwith m: m.atom({n}).charge=-1\nprint(m.brutto,int(m),[(k,a.charge,a.implicit_hydrogens) for k,a in m.atoms()])")
                 break
-    # boundary: the empty molecule
+    # split / substructure on the real code: the parts of split() carry the totals of the whole; a whole component taken with
+    # and without recalculation is the same molecule (Kekule forms: every stored count is a fresh one); a substructure that
+    # cuts bonds gets the counts of the same fragment built from scratch through add_atom / add_bond
     from chython import MoleculeContainer
+    for i in range(0, min(len(parsed) - 1, 240 if ck.tier == 'quick' else 2400), 2):
+        (s1, m1), (s2, m2) = parsed[i], parsed[i + 1]
+        if any(a.implicit_hydrogens is None for mm in (m1, m2) for _, a in mm.atoms()):
+            continue
+        u = m1.union(m2, remap=True)
+        ck.case(('split', s1, s2))
+        ck.count('search:split / substructure molecules')
+        parts = u.split()
+        bsum = collections.Counter()
+        for p_ in parts:
+            for k, v in p_.brutto.items():
+                bsum[k] += v
+        if {k: v for k, v in bsum.items() if v} != {k: v for k, v in u.brutto.items() if v} or sum(int(p_) for p_ in parts) != int(u) or \
+                abs(sum(float(p_) for p_ in parts) - float(u)) > 1e-6 or any(p_.is_radical for p_ in parts) != u.is_radical or \
+                sorted(n for p_ in parts for n in p_) != sorted(u):
+            ck.counterexample(f'split-totals:{s1}:{s2}', 'the parts of split() do not carry the atoms / formula / charge / radical flag / mass of the molecule',
+                              {'a': s1, 'b': s2}, [dict(bsum), sum(int(p_) for p_ in parts)], [dict(u.brutto), int(u)], 'additivity over components')
+        for comp in u.connected_components:
+            a_, b_ = u.substructure(comp, recalculate_hydrogens=True), u.substructure(comp, recalculate_hydrogens=False)
+            ha, hb = [(n, x.implicit_hydrogens) for n, x in a_.atoms()], [(n, x.implicit_hydrogens) for n, x in b_.atoms()]
+            if ha != hb:
+                ck.counterexample(f'split-switch:{s1}:{s2}:{min(comp)}', 'a whole component taken with and without hydrogen recalculation differs',
+                                  {'a': s1, 'b': s2, 'component': sorted(comp)}, ha, hb, 'calc_implicit depends on the atom and its bonds only')
+        n0 = rng.choice(list(u))
+        ball = {n0} | set(u._bonds[n0]) | {k for x in u._bonds[n0] for k in u._bonds[x]}
+        sub = u.substructure(ball)
+        scratch = MoleculeContainer()
+        for n in sub:
+            x = u._atoms[n]
+            scratch.add_atom(x.copy(), n)
+        for n, k, bd in sub.bonds():
+            scratch.add_bond(n, k, int(bd))
+        hs, hr = [(n, x.implicit_hydrogens) for n, x in sub.atoms()], [(n, x.implicit_hydrogens) for n, x in scratch.atoms()]
+        if hs != hr or set(sub) != ball:
+            ck.counterexample(f'sub-rebuild:{s1}:{s2}:{n0}', 'hydrogen counts of substructure() differ from the same fragment built from scratch',
+                              {'a': s1, 'b': s2, 'atoms': sorted(ball)}, hs, hr, 'rebuild through add_atom / add_bond')
+    # boundary: the empty molecule
     try:
         v = float(MoleculeContainer())
         if v != 0.0:
@@ -1113,16 +1301,23 @@ def run(ck):
                        'rule-directed, random, malformed and corpus molecules',
                        'molecular_mass is modelled over exact decimals (x 10^24); the float result of the code is compared with the exact value '
                        'to relative 1e-9',
-                       'the chemistry of the tables beyond octet agreement / electron parity is not shown; aromatic (delocalised) atoms are outside '
-                       'the statement (calc_implicit handles neutral aromatic carbon only, check_implicit refuses aromatic bonds): modelled and '
-                       'compared, not proved right',
+                       'the chemistry of the tables beyond octet agreement / electron parity is not shown; aromatic (delocalised) atoms: '
+                       'calc_implicit handles neutral aromatic carbon only and check_implicit refuses aromatic bonds - characterised exactly, '
+                       'tied exhaustively and proved consistent with the table of carbon on the Kekule spelling; that kekule() yields such a '
+                       'spelling is property C05',
+                       'union / substructure / split are modelled as far as atoms, bonds and hydrogen counts go (Model.ValenceArom); stereo labels '
+                       '(fix_stereo) and ring labels are not; the connected components are an input of the split model (perception is C06), the '
+                       'correspondence checks that the real components are a partition closed under bonds',
                        'ring perception used by calc_labels (in_ring, ring_sizes) is not part of this model (C06)']
     ck.extra['rule'] = ('tables: the 118 live _compiled_valence_rules + random valence_rules lookups (non-trivial = key exists). exhaustive: '
                         '12 elements x charge -2..2 x radical x every multiset of <= 4 bonds (orders 1-3 to C N O S F Cl) as real molecules, each with '
                         'calc_implicit and check_implicit(0..5) (non-trivial = a hydrogen count exists). molecules: one per tabulated rule of every '
                         'element + perturbed copy, common valences, random centres of all elements, hand-made malformed ones, corpus molecules as read '
                         'and in Kekule form; every atom and every total compared. search: RDKit per atom, totals re-derived, perturbed molecules for '
-                        'the valence-check clause, unions, renumberings')
+                        'the valence-check clause, unions, renumberings. aromatic: C N O S B P Si H Fe x charge -2..2 x radical x 4791 ordered neighbour '
+                        'lists containing an aromatic bond (non-trivial = neutral carbon with a count). compose: hand-made and corpus molecules (as read '
+                        'and Kekule) x union with the next molecule (overlapping / disjoint numbers, remap on / off), substructure over 7 kinds of '
+                        'selections x recalculation on / off, split. directed: every tabulated rule with 0..n hydrogens replaced by carbons')
     import time
     t = [time.time()]
 
@@ -1131,6 +1326,9 @@ def run(ck):
         ck.extra.setdefault('step_seconds', {})[name] = round(t[-1] - t[-2], 1)
 
     proved = common.standard_proof_steps(ck, translators=['elements'])
+    if not proved:
+        # the correspondence needs only the model files: build them even when a proof file no longer compiles
+        common.coq_make(['model/Valence.vo', 'model/ValenceArom.vo'])
     lap('proof')
     tied_a = corr_tables(ck)
     lap('tables')
@@ -1140,9 +1338,11 @@ def run(ck):
     lap('aromatic')
     tied_c = corr_molecules(ck)
     lap('molecules')
+    tied_e = corr_compose(ck)
+    lap('compose')
     directed_tables(ck)
     lap('directed')
     search(ck)
     lap('search')
     ck.extra['proved'] = proved
-    ck.extra['tied'] = bool(tied_a and tied_b and tied_c and tied_d)
+    ck.extra['tied'] = bool(tied_a and tied_b and tied_c and tied_d and tied_e)
